@@ -340,6 +340,12 @@ impl Spec {
                 // neighbouring ids beyond 2^24 first: f32 cannot tell them apart
                 pool = vec![16777216, 16777217, 16777218, 2000000001, 2000000002, -2147483648, -2147483647, 2147483646, 2147483647, 16777219, 33554432, 33554433];
             }
+            // a bijection needs as many new ids as there are systems
+            let mut fresh = 5000;
+            while pool.len() < ids.len() {
+                pool.push(fresh);
+                fresh += 7;
+            }
             r.shuffle(&mut pool);
             let map: std::collections::BTreeMap<i32, i32> = ids.iter().enumerate().map(|(i, id)| (*id, pool[i % pool.len()])).collect();
             for l in s.lines.iter_mut() {
@@ -498,4 +504,30 @@ pub fn respell_values(text: &str, r: &mut crate::rng::Rng) -> String {
         out.push('\n');
     }
     out
+}
+
+impl Spec {
+    /// A sibling building: the values of two consumption lines of one carrier that belong to different EPB services are
+    /// swapped - the carrier's total use at every step stays the same, its split between the services changes.
+    pub fn sibling_with_swapped_services(&self) -> Option<Spec> {
+        let mut sib = self.clone();
+        let idx: Vec<usize> = sib.lines.iter().enumerate().filter(|(_, l)| matches!(l, Line::Used { srv, .. } if EPB.contains(&srv.as_str()))).map(|(i, _)| i).collect();
+        for a in 0..idx.len() {
+            for b in a + 1..idx.len() {
+                let (i, j) = (idx[a], idx[b]);
+                let other_service = match (&sib.lines[i], &sib.lines[j]) {
+                    (Line::Used { srv: s1, .. }, Line::Used { srv: s2, .. }) => s1 != s2,
+                    _ => false,
+                };
+                if other_service && sib.lines[i].carrier() == sib.lines[j].carrier() && sib.lines[i].values().len() == sib.lines[j].values().len() && sib.lines[i].values() != sib.lines[j].values() {
+                    let vi = sib.lines[i].values().clone();
+                    let vj = sib.lines[j].values().clone();
+                    *sib.lines[i].values_mut() = vj;
+                    *sib.lines[j].values_mut() = vi;
+                    return Some(sib);
+                }
+            }
+        }
+        None
+    }
 }
